@@ -87,6 +87,89 @@ def rsStoreLe (bits : List Bool) (a b v : Nat) : Res (List Bool) :=
     .ok (bits.take a ++ (List.range (b - a)).map (fun i => v.testBit i) ++ bits.drop b)
   else .error .panic
 
+/-- `slice.partition_point(pred)` as std implements it: `binary_search_by(|x| if pred(x) {Less} else {Greater})
+.unwrap_or_else(|i| i)` - the same halving loop as `bsLoop`, the probe moving `base` to `mid` while `pred` holds -/
+def ppLoop {α} (pred : α → Bool) (xs : List α) : Nat → Nat → Nat → Nat
+  | 0, _, base => base
+  | fuel + 1, size, base =>
+    if size ≤ 1 then base
+    else
+      let half := size / 2
+      let mid := base + half
+      let base := match xs[mid]? with
+        | some x => if pred x then mid else base
+        | none => base
+      ppLoop pred xs fuel (size - half) base
+
+def rsPartitionPoint {α} (pred : α → Bool) (xs : List α) : Nat :=
+  if xs.length = 0 then 0
+  else
+    let base := ppLoop pred xs xs.length xs.length 0
+    match xs[base]? with
+    | some x => if pred x then base + 1 else base
+    | none => base
+
+/-- `bytes.view_bits::<Lsb0>()`: bit `8*i + j` is bit `j` of byte `i` -/
+def rsViewBits : List Nat → List Bool
+  | [] => []
+  | b :: bs => (List.range 8).map (fun j => b.testBit j) ++ rsViewBits bs
+
+/-- `bits.load::<u8>()` on an `Lsb0` region of at most 8 bits: bit `i` has weight `2^i` -/
+def rsLoadLe : List Bool → Nat
+  | [] => 0
+  | b :: bs => (if b then 1 else 0) + 2 * rsLoadLe bs
+
+/-- `bits.chunks(n)` (`n ≠ 0`): consecutive pieces of length `n`, the last one possibly shorter -/
+def rsChunks {α} (n : Nat) (xs : List α) : List (List α) :=
+  if h : n = 0 ∨ xs = [] then [] else xs.take n :: rsChunks n (xs.drop n)
+termination_by xs.length
+decreasing_by
+  have h1 : n ≠ 0 := fun e => h (Or.inl e)
+  have h2 : xs ≠ [] := fun e => h (Or.inr e)
+  have : 0 < xs.length := List.length_pos_iff.mpr h2
+  simp only [List.length_drop]
+  omega
+
+/-- `bytes.view_bits_mut::<Lsb0>().set(i, b)`: panics when `i` is past the last bit -/
+def rsSetBit (bytes : List Nat) (i : Nat) (b : Bool) : Res (List Nat) :=
+  match bytes[i / 8]? with
+  | none => .error .panic
+  | some byte =>
+    let bit := 2 ^ (i % 8)
+    let cleared := if byte.testBit (i % 8) then byte - bit else byte
+    .ok (bytes.set (i / 8) (if b then cleared + bit else cleared))
+
+/-- `Option<T: Ord>` comparison: `None` is below every `Some`; `strict` selects `<` or `≤` -/
+def rsOptLt (strict : Bool) : Option Nat → Option Nat → Bool
+  | none, none => !strict
+  | none, some _ => true
+  | some _, none => false
+  | some a, some b => if strict then decide (a < b) else decide (a ≤ b)
+
+/-- `s.split(&[c1, c2, …][..])`: pieces between occurrences of any of the listed bytes -/
+def rsSplitAny (cs : List Nat) : List Nat → List (List Nat)
+  | [] => [[]]
+  | x :: xs =>
+    if cs.contains x then [] :: rsSplitAny cs xs
+    else match rsSplitAny cs xs with
+      | [] => [[x]]
+      | p :: ps => (x :: p) :: ps
+
+/-- `pieces.join(sep)` -/
+def rsJoin (sep : List Nat) : List (List Nat) → List Nat
+  | [] => []
+  | [p] => p
+  | p :: q :: rest => p ++ sep ++ rsJoin sep (q :: rest)
+
+/-- insertion into a list sorted by `key`, after all elements with a smaller or equal key (stable) -/
+def rsInsertByKey {α} (key : α → Nat) (x : α) : List α → List α
+  | [] => [x]
+  | y :: ys => if key x < key y then x :: y :: ys else y :: rsInsertByKey key x ys
+
+/-- `v.sort_by_key(key)` (a stable sort) -/
+def rsSortByKey {α} (key : α → Nat) (xs : List α) : List α :=
+  xs.foldl (fun acc x => rsInsertByKey key x acc) []
+
 /-- lexicographic `<` on pairs, the `Ord` of `(u32, u32)` -/
 def ltPair (a b : Nat × Nat) : Bool := decide (a.1 < b.1 ∨ (a.1 = b.1 ∧ a.2 < b.2))
 
